@@ -156,6 +156,15 @@ type Run struct {
 	opaqueBuilders map[*Object]bool
 	frozeAt        int
 	frozenWrites   int
+	// shared-state discipline (C05/C18 concurrency clause, decided sequentially): objects with an ID up to
+	// shareAt existed when the harness called vShareBarrier and stand for state that other goroutines can reach.
+	shareAt        int
+	wlocks         int            // exclusive locks currently held
+	anyLocks       int            // locks of any kind currently held
+	atomicDepth    int            // inside a sync/atomic operation
+	sharedWritten  map[int]string // shared object -> position of a write to it
+	unlockedWrites []string       // writes to shared objects with no exclusive lock held
+	unlockedReads  map[int]string // shared object -> position of a read with no lock held
 }
 
 func (r *Run) end(kind OutcomeKind, pos token.Pos, format string, args ...interface{}) {
